@@ -66,7 +66,7 @@ fn polynomial_unbridge(x: Vec<BigIntBridge>) -> Polynomial<BigInt> {
     for elem in x {
         dat.push(elem.into());
     }
-    Polynomial { dat }
+    Polynomial::from_raw(dat)
 }
 
 #[derive(Debug, Clone)]
